@@ -14,9 +14,13 @@ plan of HTTP outcomes and every behaviour of the decompression library (`World`)
 * `download_atomic`, `download_never_partial`: in every reachable state (crash states included) the download's final
   name holds what was there before or a completely received, size-verified body.
 * `prepare_ok_means_verified` (+ `bundled_true_means_verified`): a normal return means published content, declared
-  size and a complete offset table — under hypotheses the proof forces: the uncompressed size is declared, no valid-
-  by-mtime but torn/foreign `.offset` is on disk, the archive format does not restore mtimes.  Each of them is shown
-  necessary by a witness (`*_needed*`), and the statement without them (`FullStatement`) is refuted.
+  size and a complete offset table — under hypotheses the proof forces: the uncompressed size is declared and the
+  archive format does not restore mtimes (two open findings, each shown necessary by a witness, `*_needed*`; the
+  statement without them, `FullStatement`, is refuted), and the no-checksum assumptions (no foreign `.offset` with a
+  newer mtime, no other bytes of exactly the published size).
+* `crash_states_keep_offset_table_sound`: the offset-table assumption is *preserved* by the code: no state the
+  preparation passes through — hence no crash — leaves a table that is valid by mtime but not the document's complete
+  table (the table is built under `.offset.tmp` and published atomically).
 -/
 namespace C14
 open Corpus Corpus.Witness
@@ -88,7 +92,7 @@ def DownloadNeverPartial_Full : Prop :=
 theorem download_never_partial_full_false : ¬ DownloadNeverPartial_Full := by
   intro h
   have := h w0 ⟨true, none, none, 10, true, false, false⟩ emptyFS [.resp 200 none .pub [25] .clean] 1 40
-    ⟨none, some ⟨25, .pub, 2⟩, none, none, 4⟩ (by decide)
+    ⟨none, some ⟨25, .pub, 2⟩, none, none, none, 4⟩ (by decide)
   revert this
   decide
 
@@ -121,48 +125,36 @@ theorem prepare_ok_declared_size (w : World) (spec : Spec) (fs : FS) (plan : Lis
 
 /-! ### the statement without the forced hypotheses is false of the current code
 
-`Admissible` = the property's own quantifier: truthful declarations *when* declared, no other bytes of exactly the
-published size (the property speaks of missing, partial and wrong-sized files), mtimes not in the future.  It does
-**not** require a declared size, a sound offset table or a format that leaves mtimes alone. -/
+`Admissible` (`RallyProofs/Corpus.lean`) = the property's own quantifier: truthful declarations *when* declared, no
+other bytes of exactly the published size, no foreign `.offset` with a newer mtime (nothing can tell these apart:
+there are no checksums), mtimes not in the future.  It does **not** require a declared size or a format that leaves
+mtimes alone. -/
 
 def FullStatement : Prop :=
   ∀ (w : World) (spec : Spec) (fs : FS) (plan : List Attempt), Admissible w spec fs plan →
     (prepare w spec fs plan).res = .done () → Verified w (prepare w spec fs plan).fs
 
-/-- **the full statement is false** (witness D1: declared sizes, complete document, torn offset table accepted by mtime) -/
+/-- **the full statement is false** (witness D2: nothing declared falsely, sound state, matching line count — a
+    document whose last bytes are missing is accepted because the uncompressed size is not declared) -/
 theorem full_statement_false : ¬ FullStatement := by
   intro h
-  have hv := h w0 specDeclared fsTornTable [] adm_tornTable (by decide)
+  have hv := h w0 specUndeclared fsPartialDoc [] adm_partialDoc (by decide)
   rw [verified_iff] at hv
   revert hv
   decide
 
-/-- hypothesis "offset table sound when valid by mtime" is needed: everything else holds in witness D1 -/
-theorem offset_hypothesis_needed :
-    Hyp w0 specDeclared [] ∧ (prepare w0 specDeclared fsTornTable []).res = .done () ∧
-    ¬ Verified w0 (prepare w0 specDeclared fsTornTable []).fs := by
-  refine ⟨hyp_w0 [], by decide, ?_⟩
-  rw [verified_iff]; decide
-
-/-- hypothesis "uncompressed size declared" is needed (D2): the initial state satisfies `Inv`, the track declares
-    nothing false, the line count matches — and a torn document is accepted -/
+/-- hypothesis "uncompressed size declared" is needed (finding `partial-document-accepted-size-undeclared`): the initial
+    state satisfies `Inv`, the track declares nothing false, the line count matches — and a torn document is accepted -/
 theorem declared_size_needed_partial_document :
     Inv w0 fsPartialDoc ∧ Admissible w0 specUndeclared fsPartialDoc [] ∧
     (prepare w0 specUndeclared fsPartialDoc []).res = .done () ∧ ¬ Verified w0 (prepare w0 specUndeclared fsPartialDoc []).fs := by
   refine ⟨inv_partialDoc, adm_partialDoc, by decide, ?_⟩
   rw [verified_iff]; decide
 
-/-- … and D3: `if lines_read and lines_read != expected` does not even compare when no line was read: an empty
-    document file passes although 10 lines are expected -/
-theorem declared_size_needed_empty_document :
-    Inv w0 fsEmptyDoc ∧ Admissible w0 specUndeclared fsEmptyDoc [] ∧ specUndeclared.nlines = 10 ∧ w0.lines .pub 0 = 0 ∧
-    (prepare w0 specUndeclared fsEmptyDoc []).res = .done () ∧ ¬ Verified w0 (prepare w0 specUndeclared fsEmptyDoc []).fs := by
-  refine ⟨inv_emptyDoc, adm_emptyDoc, rfl, rfl, by decide, ?_⟩
-  rw [verified_iff]; decide
-
-/-- hypothesis "the format does not restore mtimes" is needed (D4, tar family): sizes declared, `Inv` holds (the table on
-    disk *is* the complete table of the (other, wrong-sized) document on disk), download/extraction flawless — the stale table is kept
-    because the extracted file is older than it -/
+/-- hypothesis "the format does not restore mtimes" is needed (finding
+    `stale-offset-table-kept-because-tar-extraction-restores-mtime`): sizes declared, `Inv` holds (the table on disk
+    *is* the complete table of the (other, wrong-sized) document on disk), download/extraction flawless — the stale
+    table is kept because the extracted file is older than it -/
 theorem no_mtime_restore_needed :
     Inv wTar fsOtherDocWithTable ∧ specDeclared.usize = some wTar.dSize ∧
     (prepare wTar specDeclared fsOtherDocWithTable []).res = .done () ∧
@@ -170,28 +162,53 @@ theorem no_mtime_restore_needed :
   refine ⟨inv_otherDoc, rfl, by decide, ?_⟩
   rw [verified_iff]; decide
 
+/-- the offset-table assumption is a real assumption (no checksum): a foreign / torn `.offset` that is newer than a
+    complete, right-sized document is taken as valid -/
+theorem foreign_offset_table_is_trusted :
+    Hyp w0 specDeclared [] ∧ (prepare w0 specDeclared fsTornTable []).res = .done () ∧
+    ¬ Verified w0 (prepare w0 specDeclared fsTornTable []).fs := by
+  refine ⟨hyp_w0 [], by decide, ?_⟩
+  rw [verified_iff]; decide
+
+/-- **crash_states_keep_offset_table_sound**: … but the code itself never produces such a table.  If mtimes are not in
+    the future and the table on disk, when not older than the document, is that document's complete table, then the
+    same holds in *every* state `prepare_document_set` passes through (every crash state) and in its final state, for
+    every specification, outcome plan and decompression behaviour that does not restore mtimes: the table is built
+    under `<document>.offset.tmp` and appears under its final name only complete. -/
+theorem crash_states_keep_offset_table_sound (w : World) (spec : Spec) (fs : FS) (plan : List Attempt) (fuel : Nat)
+    (hm : ∀ c s, (w.dc c s).mtime = none) (hinv : OffInv fs) :
+    (∀ x ∈ (prepareLoop w spec fuel fs plan).trace, OffInv x) ∧ OffInv (prepareLoop w spec fuel fs plan).fs :=
+  loop_offInv w spec hm fuel fs plan hinv
+
+/-- the zero-lines quirk is gone: an empty document where 10 lines are expected is an explicit error, and neither the
+    table nor its temporary file stays behind -/
+theorem empty_document_is_rejected :
+    (prepare w0 specUndeclared fsEmptyDoc []).res = .raised .linesMismatch ∧
+    (prepare w0 specUndeclared fsEmptyDoc []).fs.off = none ∧ (prepare w0 specUndeclared fsEmptyDoc []).fs.offTmp = none := by
+  decide
+
 /-! ### non-vacuity: the hypotheses are satisfiable and lead to a normal return through every branch -/
 
 def goodPlan : List Attempt :=
   [.resp 200 (some 40) .pub [25] .protocolError, .resp 200 (some 40) .pub [25, 15] .clean]
 
 /-- nothing on disk, one dropped connection, then a good download, decompression, table build: normal return with
-    exactly the verified state, after 11 atomic steps -/
+    exactly the verified state, after 12 atomic steps -/
 example : (prepare w0 specDeclared emptyFS goodPlan).res = .done () ∧
     verifiedB w0 (prepare w0 specDeclared emptyFS goodPlan).fs = true ∧
     (prepare w0 specDeclared emptyFS goodPlan).fs.arch.map (·.size) = some 40 ∧
-    (prepare w0 specDeclared emptyFS goodPlan).trace.length = 11 := by decide
+    (prepare w0 specDeclared emptyFS goodPlan).trace.length = 12 := by decide
 
 example : Verified w0 (prepare w0 specDeclared emptyFS goodPlan).fs :=
   prepare_ok_means_verified w0 specDeclared emptyFS goodPlan FUEL (hyp_w0 _) inv_empty (by decide)
 
 /-- a partial document left by a crashed decompression and a stale table are repaired when the size is declared -/
-example : (prepare w0 specDeclared ⟨some ⟨97, .pub, 3⟩, some ⟨40, .pub, 1⟩, none, some ⟨.complete 97 .pub, 2⟩, 4⟩ []).res = .done () ∧
-    verifiedB w0 (prepare w0 specDeclared ⟨some ⟨97, .pub, 3⟩, some ⟨40, .pub, 1⟩, none, some ⟨.complete 97 .pub, 2⟩, 4⟩ []).fs = true := by
+example : (prepare w0 specDeclared ⟨some ⟨97, .pub, 3⟩, some ⟨40, .pub, 1⟩, none, some ⟨.complete 97 .pub, 2⟩, none, 4⟩ []).res = .done () ∧
+    verifiedB w0 (prepare w0 specDeclared ⟨some ⟨97, .pub, 3⟩, some ⟨40, .pub, 1⟩, none, some ⟨.complete 97 .pub, 2⟩, none, 4⟩ []).fs = true := by
   decide
 
 /-- … and an explicit error otherwise (wrong-sized archive, no base URL) -/
-example : (prepare w0 { specDeclared with hasBaseUrl := false } ⟨none, some ⟨39, .pub, 1⟩, none, none, 2⟩ []).res
+example : (prepare w0 { specDeclared with hasBaseUrl := false } ⟨none, some ⟨39, .pub, 1⟩, none, none, none, 2⟩ []).res
     = .raised .presentWrongSizeNoUrl := by decide
 
 /-- `LengthKnown` is satisfiable with a plan that contains a short body: it is *not* installed -/
@@ -200,7 +217,15 @@ example : (prepare w0 specDeclared emptyFS [.resp 200 none .pub [25] .clean]).re
     (prepare w0 specDeclared emptyFS [.resp 200 none .pub [25] .clean]).fs.arch = none := by decide
 
 /-- bundled: archive next to the track, nothing else: decompress, build table, `True` -/
-example : (prepareBundled w0 specDeclared ⟨none, some ⟨40, .pub, 1⟩, none, none, 2⟩).res = .done true := by decide
+example : (prepareBundled w0 specDeclared ⟨none, some ⟨40, .pub, 1⟩, none, none, none, 2⟩).res = .done true := by decide
 example : (prepareBundled w0 specDeclared emptyFS).res = .done false := by decide
+
+/-- `OffInv` holds of a non-trivial state (stale table older than a partial document) and a crash state of the
+    preparation started there still satisfies it -/
+example : OffInv ⟨some ⟨97, .pub, 3⟩, some ⟨40, .pub, 1⟩, none, some ⟨.torn 97 .pub 4, 2⟩, none, 4⟩ := by
+  constructor
+  · intro d h; cases h; decide
+  · intro o h; cases h; decide
+  · intro o d h1 h2 h3; cases h1; cases h2; exact absurd h3 (by decide)
 
 end C14
